@@ -109,6 +109,15 @@ def make_population(rng, i):
                     else:
                         forms += [tsor.format_us(us, "millisecond", "min")] + ([full[:-1] + "0Z"] if len(full.split(".")[1]) < 7 else [])
                     ov["modified"] = rng.choice(forms)
+                    others = [f for f in forms if f != ov["modified"]]
+                    if others and rng.random() < 0.4:
+                        # ... and the same version once more, its modified time spelled another way: still one version
+                        respelled = dict(ov, modified=rng.choice(others))
+                        if "name" in respelled and vi:
+                            respelled["name"] = "%s v%d" % (str(respelled["name"])[:20], vi)
+                        elif vi:
+                            respelled["description"] = "version %d" % vi
+                        pop.append((respelled, None, kind + "/respelled"))
                 elif kind == "dict":
                     ov["modified"] = tsor.format_us(us, "millisecond", "min")
                 else:
@@ -190,7 +199,12 @@ def add_group(mem, fs, items, form, rng):
 
 
 def same_content(a, b):
-    return compare.generic_equal(a, b)
+    if compare.generic_equal(a, b):
+        return True
+    # one version added twice in two spellings of its modified time: either copy is that version
+    if isinstance(a, dict) and isinstance(b, dict) and a.get("modified") != b.get("modified") and version_instant(a) == version_instant(b):
+        return compare.generic_equal(dict(a, modified=b.get("modified")), b)
+    return False
 
 
 def check_store(ctx, name, store, model, history, case):
@@ -231,6 +245,9 @@ def check_store(ctx, name, store, model, history, case):
             continue
         got_keys = {version_instant(x) for x in av}
         exp_keys = {version_instant(x) for x in exp_versions}
+        if len(av) != len(got_keys):
+            ctx.violation("one-version-held-twice", "%s.all_versions(%s) returned %d objects for %d distinct modified instants" % (name, sid, len(av), len(got_keys)),
+                          dict(case, store=name, id=sid, returned_modified=[x.get("modified") for x in av]))
         if got_keys != exp_keys:
             missing = [x.get("modified") for x in exp_versions if version_instant(x) not in got_keys]
             extra = [x.get("modified") for x in av if version_instant(x) not in exp_keys]
@@ -301,6 +318,13 @@ def wl_history(ctx, rng, i):
                 pos += len(group)
                 # identical objects twice in one call would be the undefined "same id+modified" situation for a bundle: keep distinct
                 group = list(dict.fromkeys(group))
+                seen_versions, distinct = set(), []
+                for k in group:          # (also not the same version in two spellings)
+                    vk = (pop[k][0]["id"], version_instant(pop[k][0]))
+                    if vk not in seen_versions:
+                        seen_versions.add(vk)
+                        distinct.append(k)
+                group = distinct
                 gform = rng.choice(["multi-list", "multi-bundle-dict", "multi-bundle-object"])
                 firsts = [model.add(pop[k][0]) for k in group]
                 rs = add_group(mem, fs, [pop[k] for k in group], gform, rng)
